@@ -464,3 +464,65 @@ func mapMsgFields(env *schema.Env, ty schema.Ty, v Val, keep func(def int, fd sc
 	}
 	return out
 }
+
+// NestedStructShrinks reports whether v (typed by envNew at ty) contains a struct value in a nested
+// position -- any struct that is not v itself -- which loses a message field when restricted to envOld.
+// This is exactly the negation of the guard `TopStable` of the Lean theorem C04_unmarshal_evolved_partial:
+// the only values on which the byte-slice decoders are known to mis-step (listed finding KF-C04-nested-struct).
+func NestedStructShrinks(envOld, envNew *schema.Env, ty schema.Ty, v Val) bool {
+	return nestedShrinks(envOld, envNew, ty, v, true)
+}
+
+func nestedShrinks(envOld, envNew *schema.Env, ty schema.Ty, v Val, top bool) bool {
+	switch ty.K {
+	case schema.TyArr, schema.TyMap:
+		for _, e := range v.Elems {
+			if nestedShrinks(envOld, envNew, *ty.Elem, e, false) {
+				return true
+			}
+		}
+	case schema.TyRef:
+		if ty.Ref >= len(envNew.Defs) {
+			return false
+		}
+		d := envNew.Defs[ty.Ref]
+		switch d.Kind {
+		case schema.Struct:
+			if v.K != KStruct || len(v.Elems) != len(d.Fields) {
+				return false
+			}
+			if !top && Restrict(envOld, envNew, ty, v).String() != v.String() {
+				return true
+			}
+			for i, e := range v.Elems {
+				if nestedShrinks(envOld, envNew, d.Fields[i].Ty, e, false) {
+					return true
+				}
+			}
+		case schema.Message:
+			if v.K != KMsg {
+				return false
+			}
+			for i, e := range v.Elems {
+				for _, fd := range d.Fields {
+					if fd.Idx == v.Idx[i] {
+						if nestedShrinks(envOld, envNew, fd.Ty, e, false) {
+							return true
+						}
+						break
+					}
+				}
+			}
+		case schema.Union:
+			if v.K != KUnion || len(v.Elems) != 1 {
+				return false
+			}
+			for _, b := range d.Branches {
+				if b.Disc == v.Disc {
+					return nestedShrinks(envOld, envNew, schema.Ty{K: schema.TyRef, Ref: b.Ref}, v.Elems[0], false)
+				}
+			}
+		}
+	}
+	return false
+}
